@@ -15,21 +15,24 @@ TODAY = dt.date(2022, 3, 4)
 
 CFG = ('[bumpver]\ncurrent_version = "1.2.3"\nversion_pattern = "MAJOR.MINOR.PATCH"\ncommit = true\ntag = true\npush = false\n\n'
        '[bumpver.file_patterns]\n"bumpver.toml" = [\'current_version = "{version}"\']\n"a.txt" = ["ver {version}"]\n'
-       '"./sub/b.txt" = ["pep {pep440_version}"]\n"docs/series.txt" = ["series MAJOR.MINOR docs"]\n"rel notes/what is new.txt" = ["now {version}"]\n"pkg/deep/inner/c.txt" = ["deep {version}"]\n')
+       '"./sub/b.txt" = ["pep {pep440_version}"]\n"docs/series.txt" = ["series MAJOR.MINOR docs"]\n"rel notes/what is new.txt" = ["now {version}"]\n"pkg/deep/inner/c.txt" = ["deep {version}"]\n"data/*.dat" = ["dat {version}"]\n')
+# a file reached through a glob whose name is not valid UTF-8 (written by a latin-1 system): b"data/caf\xe9.dat"
+LATIN1 = "data/caf\udce9.dat"
 FILES = {"bumpver.toml": CFG.encode(), "a.txt": b"head\nver 1.2.3\ntail\n", "sub/b.txt": b"pep 1.2.3\nmore\n",
          "other.txt": b"unrelated\nline\n", "docs/x.txt": b"docs\n", "docs/series.txt": b"intro\nseries 1.2 docs\nend\n", "rel notes/what is new.txt": b"now 1.2.3\n",
-         "pkg/deep/inner/c.txt": b"deep 1.2.3\n"}
+         "pkg/deep/inner/c.txt": b"deep 1.2.3\n", LATIN1: b"dat 1.2.3\n"}
 # docs/series.txt carries a pattern whose rendering does not change with a --patch bump: still a pattern file
 # "rel notes/what is new.txt" is printed C-quoted by `git status --porcelain`
 # "pkg/deep/inner/c.txt" is the only file below pkg/: untracked, git reports just `?? pkg/` (three levels above the file)
-PATTERN_FILES = ["a.txt", "sub/b.txt", "bumpver.toml", "docs/series.txt", "rel notes/what is new.txt", "pkg/deep/inner/c.txt"]
+PATTERN_FILES = ["a.txt", "sub/b.txt", "bumpver.toml", "docs/series.txt", "rel notes/what is new.txt", "pkg/deep/inner/c.txt", LATIN1]
 UNRELATED = ["other.txt", "docs/x.txt"]
 
 
 def cases_matrix():
     out = []
     for st in STATUSES:
-        for target in ("pattern", "pattern_unchanged", "pattern_quoted_name", "pattern_respelled_key", "pattern_deep", "unrelated"):
+        for target in ("pattern", "pattern_unchanged", "pattern_quoted_name", "pattern_respelled_key", "pattern_deep",
+                       "pattern_latin1_name", "unrelated"):
             for allow in (False, True):
                 out.append({"dirt": [{"status": st, "target": target}], "allow": allow})
     return out
@@ -86,7 +89,7 @@ class Dirty:
             case = dict(self.matrix[index % len(self.matrix)])
             index4 = index // len(self.matrix)
             case["dirt"] = [dict(x, path={"pattern": "a.txt", "pattern_unchanged": "docs/series.txt", "pattern_quoted_name": "rel notes/what is new.txt",
-                                        "pattern_respelled_key": "sub/b.txt", "pattern_deep": "pkg/deep/inner/c.txt"}.get(x["target"], "other.txt"),
+                                        "pattern_respelled_key": "sub/b.txt", "pattern_deep": "pkg/deep/inner/c.txt", "pattern_latin1_name": LATIN1}.get(x["target"], "other.txt"),
                                  target=("pattern" if x["target"].startswith("pattern") else "unrelated")) for x in case["dirt"]]
             # flags that have nothing to do with the dirty check must not influence it
             case["extra"] = [[], ["--ignore-vcs-tag"], ["--tag-scope", "branch"], ["--pin-increments"]][index4]
